@@ -243,6 +243,7 @@ impl C12 {
         let port = 0xBFFEu16;
         let mut o = Observed { pulses: vec![], pulse_end: vec![], resets: vec![], disc: vec![], cause_log: vec![], play_time: 0, last_edge: 0, playing: false, tol: (12, tape::TOL + 12) };
         let mut level = (e.verif_bus().read_io(port) >> 6) & 1;
+        let mut just_stopped = false;
         let total: u64 = blocks.iter().map(|b| tape::block_duration(b) + 3_500_000).sum::<u64>();
         for op in &sc.ops {
             match op.k.as_str() {
@@ -253,6 +254,9 @@ impl C12 {
                 }
                 "stop" => {
                     e.stop_tape();
+                    if o.playing {
+                        just_stopped = true;
+                    }
                     o.playing = false;
                     ctx.fault("deck_stop@phase");
                 }
@@ -284,6 +288,8 @@ impl C12 {
                         let dt = if after >= before { after - before } else { after + f - before };
                         left = left.saturating_sub(dt);
                         ctx.sim_t += dt;
+                        let first_after_stop = just_stopped;
+                        just_stopped = false;
                         if o.playing {
                             o.play_time += dt;
                             if v != level {
@@ -292,6 +298,13 @@ impl C12 {
                                 o.last_edge = o.play_time;
                                 level = v;
                             }
+                        } else if v != level && first_after_stop {
+                            // the port read samples the EAR bit one T-state before its cycle ends: an edge produced in
+                            // that last T-state of the last read before the stop command is seen only now
+                            o.pulses.push(o.play_time - o.last_edge);
+                            o.pulse_end.push(o.play_time);
+                            o.last_edge = o.play_time;
+                            level = v;
                         } else if v != level {
                             return Err(Fail::new("C12.edge_while_stopped", "system=1", format!("EAR bit of the ULA port changed while the deck was stopped (play time {})", o.play_time)));
                         }
